@@ -312,6 +312,11 @@ func (s *schemaBuilder) buildFromType(tpe types.Type, tgt swaggerTypable) error 
 	case *types.Interface:
 		return s.buildFromInterface(s.decl, titpe, tgt.Schema(), make(map[string]string))
 	case *types.Slice:
+		if eb, ok := titpe.Elem().(*types.Basic); ok && eb.Kind() == types.Byte {
+			// encoding/json writes a []byte as a base64-encoded string (arrays of bytes stay arrays)
+			tgt.Typed("string", "byte")
+			return nil
+		}
 		return s.buildFromType(titpe.Elem(), tgt.Items())
 	case *types.Array:
 		return s.buildFromType(titpe.Elem(), tgt.Items())
@@ -459,7 +464,7 @@ func (s *schemaBuilder) buildFromType(tpe types.Type, tgt swaggerTypable) error 
 			if decl, ok := s.ctx.FindModel(tio.Pkg().Path(), tio.Name()); ok {
 				return s.makeRef(decl, tgt)
 			}
-			return s.buildFromType(utitpe.Elem(), tgt.Items())
+			return s.buildFromType(utitpe, tgt)
 		case *types.Map:
 			if decl, ok := s.ctx.FindModel(tio.Pkg().Path(), tio.Name()); ok {
 				return s.makeRef(decl, tgt)
